@@ -88,8 +88,11 @@ func PointIndexOK(point string) bool { panic("ghost") }
 //@ func (indexMap).GetSameIndexes
 //@ props C12 C09
 //@ requires forallT(k, string, has(im, k) ==> im[k] != nil)
+//@ requires forallT(k1, string, forallT(k2, string, has(im, k1) && has(im, k2) && k1 != k2 ==> im[k1].targetIndex != im[k2].targetIndex))
 //@ ensures[found] len(result) > 0 ==> existsT(k, string, has(im, k) && im[k].targetIndex == targetIndex && sameslice(result, im[k].indexes))
+//@ ensures[determined] forallT(k, string, has(im, k) && im[k].targetIndex == targetIndex ==> sameslice(result, im[k].indexes)) @props C13 C12
 //@ modifies fresh
+//@ loop 0 invariant[none-yet] forallT(k, string, seen(k) ==> im[k].targetIndex != targetIndex)
 //@ end
 
 //@ func (*DepthExecutor).getVariables
@@ -386,3 +389,6 @@ func PointIndexOK(point string) bool { panic("ghost") }
 //@ ensures[same] is(err, *gqlerrors.Error) ==> result == err.(*gqlerrors.Error)
 //@ modifies fresh
 //@ end
+
+//@ commute (indexMap).GetSameIndexes loop 0: proved: the early return is unique - GetSameIndexes#ensures{determined} shows for every iteration order that the result is the indexes of THE entry with that target slot, under the injectivity precondition established by executeRequests#inv{loop0:inj}
+//@ commute NewDepthExecutorManager loop 1: assumed: maxDepth is a max accumulator (if depth > maxDepth { maxDepth = depth }), which is commutative
